@@ -145,6 +145,16 @@ CLAIMED = {
         "wavemem reader (ids.iter().map(load_signal)); for the FST database it is assumption A-fst, exercised on corpus files. Thread "
         "interleavings of par_iter are not explored (no shared mutable state; A-rayon).",
    technique="Coq proof (history induction, refinement to set semantics) + correspondence via OCaml extraction"),
+ "C18": dict(
+   category="translation_validation",
+   text="The pywellen extension module is built from /repo and driven from python3 on generated VCD files: all_changes, value_at_idx for "
+        "every index, value_at_time for every table entry / midpoint / before / after, time_table[i] incl. negative and out-of-range i; "
+        "oracle computed from the abstract history; the Gallina model of the binding's logic (value_at_time search, delta-group element "
+        "selection, int-vs-string conversion, convert_py_idx) is run on the same files. Three genuine defects found this way were repaired "
+        "(D7a-c). Theorems value_at_time_spec etc. are not yet proved, hence the level.",
+   design_ref="DESIGN.md section 6, C18",
+   note="Trusted: Coq kernel, extraction, OCaml driver, the Python driver pyharness/run_py.py, Python oracle; PyO3 glue and num-bigint are exercised only.",
+   technique="correspondence: Coq model extracted to OCaml vs the real Python extension module + oracle from abstract history"),
 }
 
 NOT_YET = {}
